@@ -1,19 +1,19 @@
 SPECIFICATION Spec
 CONSTANTS
-  N = 1
-  Kinds <- K1e
+  N = 3
+  Kinds <- K3
   Units = 2
   Cap = 1
   DropParentCloseW = FALSE
-  FailAt = 0
+  FailAt = 3
   LateFail = "clean"
-  HereAt = 0
-  HereUnits = 0
+  HereAt = 3
+  HereUnits = 2
   SigpipeMode = "ignored"
   CapRedirect = FALSE
   CapCloseMode = "always"
   CapReadMode = "concurrent"
-  Capture = TRUE
+  Capture = FALSE
 INVARIANT ShellAlive
 INVARIANT ExecFds
 INVARIANT ShellFdsRestored
